@@ -73,11 +73,15 @@ def producer():
 
 
 def consumer(x):
-    if _fault().get("mode") == "raise_busy_sibling":
+    if _fault().get("mode") in ("raise_busy_sibling", "raise_busy_deaf_sibling"):
         if x == ("p", 0):
             time.sleep(1.5)          # the sibling has begun its long computation by now
             raise RuntimeError("injected failure next to a busy sibling")
-        time.sleep(600)              # a long task body: this worker does not read WorkerShutdown
+        if _fault().get("mode") == "raise_busy_deaf_sibling":
+            signal.signal(signal.SIGTERM, lambda *a: None)      # the task body handles SIGTERM itself
+        end = time.time() + 600
+        while time.time() < end:     # (a handled signal interrupts sleep: keep computing)
+            time.sleep(1)              # a long task body: this worker does not read WorkerShutdown
     _strike("before", "t2")
     r = ("c", x)
     _strike("after_compute", "t2")
